@@ -76,6 +76,8 @@ structure Params where
   maxReq   : Nat    -- unhealthy_request_count → Upstream.MaxRequests of upstreams without their own (0 = unlimited)
   firstMax : Nat    -- `max_requests` of the first configured upstream (0 = not set)
   badStatus : List Nat  -- passive unhealthy_status entries (a value < 100 is a class: 5 = 5xx)
+  dynamic  : Bool   -- the upstreams come from a dynamic source (`dynamic_upstreams`): they are provisioned and
+                    -- released by every loop iteration, which then is a pool holder of its own (see `CfgSt`)
   deriving DecidableEq, Repr
 
 /-- healthchecks.go:590-596 — does `countFailure` do anything? -/
@@ -110,6 +112,10 @@ structure Fail where
 
 def Fail.exp (e : Fail) : Nat := e.t0 + e.dur
 
+/-- one holder of `hosts` pool references with its own end of life: a provisioned handler
+    (= configuration generation), or — for handlers with dynamic upstreams — one iteration of the
+    proxy loop (reverseproxy.go:496-517: `provisionUpstream` on every dynamic upstream, the deferred
+    `hosts.Delete` of each when the iteration returns; `canceled` = the iteration is over) -/
 structure CfgSt where
   par      : Params
   ups      : List (Key × HostId)   -- provisioned upstreams, in order
